@@ -4,6 +4,7 @@ package c14
 
 import (
 	"fmt"
+	"math/bits"
 	"strconv"
 	"strings"
 
@@ -281,6 +282,7 @@ type gen struct {
 	noDC   bool
 	noWS   bool
 	noDefault bool // no default-sides dice
+	avoid  func(string) bool // open findings that ask the generator to stay away from a feature
 	feats  map[string]int
 	nDice  int
 	nOps   int
@@ -290,7 +292,37 @@ type gen struct {
 
 func (g *gen) feat(s string) { g.feats[s]++ }
 
-func (g *gen) intn(lo, hi int, label string) int { return rapid.IntRange(lo, hi).Draw(g.t, label) }
+// uniform draws an unbiased index in [0, n): rapid's integer generators favour small values on purpose, which is
+// wanted for magnitudes but not for choosing between alternatives.
+func uniform(t *rapid.T, n int, label string) int {
+	if n <= 1 {
+		return 0
+	}
+	nb := bits.Len(uint(n - 1))
+	for {
+		bs := rapid.SliceOfN(rapid.Bool(), nb, nb).Draw(t, label)
+		v := 0
+		for _, b := range bs {
+			v <<= 1
+			if b {
+				v |= 1
+			}
+		}
+		if v < n {
+			return v
+		}
+	}
+}
+
+func pickOf[T any](t *rapid.T, pool []T, label string) T { return pool[uniform(t, len(pool), label)] }
+
+func pct(t *rapid.T, p int, label string) bool { return uniform(t, 100, label) < p }
+
+// intn is used for choices between alternatives: unbiased
+func (g *gen) intn(lo, hi int, label string) int { return lo + uniform(g.t, hi-lo+1, label) }
+
+// mag is used for magnitudes: rapid's small-value bias is welcome
+func (g *gen) mag(lo, hi int, label string) int { return rapid.IntRange(lo, hi).Draw(g.t, label) }
 func (g *gen) i64(lo, hi int64, label string) int64 {
 	return rapid.Int64Range(lo, hi).Draw(g.t, label)
 }
@@ -303,13 +335,13 @@ func (g *gen) wsAny() string {
 	if g.noWS {
 		return ""
 	}
-	return rapid.SampledFrom(wsAnyPool).Draw(g.t, "ws")
+	return pickOf(g.t, wsAnyPool, "ws")
 }
 func (g *gen) wsNoNL() string {
 	if g.noWS {
 		return ""
 	}
-	return rapid.SampledFrom(wsNoNLPool).Draw(g.t, "wsn")
+	return pickOf(g.t, wsNoNLPool, "wsn")
 }
 
 func drawVars(t *rapid.T, withComputed bool) []VarDef {
@@ -442,7 +474,7 @@ func (g *gen) genExpr(depth int) *Node {
 	}
 	switch k := g.intn(0, 99, "ekind"); {
 	case k < 55:
-		op := rapid.SampledFrom(binOps).Draw(g.t, "op")
+		op := pickOf(g.t, binOps, "op")
 		if op != "+" && op != "-" && op != "*" {
 			g.feat("fullwidth-op")
 		}
@@ -450,7 +482,7 @@ func (g *gen) genExpr(depth int) *Node {
 		r := g.genExpr(depth - 1)
 		return g.bin(op, l, r)
 	case k < 65:
-		op := rapid.SampledFrom([]string{"-", "-", "-", "+", "－"}).Draw(g.t, "uop")
+		op := pickOf(g.t, []string{"-", "-", "-", "+", "－"}, "uop")
 		g.feat("unary")
 		return g.unary(op, g.genPrimary(depth-1))
 	case k < 72:
@@ -467,7 +499,7 @@ func (g *gen) genPrimary(depth int) *Node {
 		return g.genLit()
 	case k < 45:
 		g.nVars++
-		v := rapid.SampledFrom(g.vars).Draw(g.t, "var")
+		v := pickOf(g.t, g.vars, "var")
 		if v.Expr != "" {
 			g.feat("computed-var")
 			return &Node{K: "cvar", S: v.Name}
@@ -502,7 +534,7 @@ func (g *gen) num(lo, hi int64) *Operand {
 func (g *gen) sub(n *Node) *Operand {
 	w2 := ""
 	if !g.noWS && g.chance(6, "wsAfterSub") {
-		w2 = rapid.SampledFrom([]string{" ", " ", "\n", "\t "}).Draw(g.t, "ws2")
+		w2 = pickOf(g.t, []string{" ", " ", "\n", "\t "}, "ws2")
 		g.feat("ws-after-operand-paren")
 	}
 	return &Operand{Sub: n, W: []string{g.wsAny(), g.wsBeforeClose(n), w2}}
@@ -533,7 +565,7 @@ func (g *gen) genRanged(lo, hi int64, depth int) *Node {
 		f := func() *Node {
 			g.nVars++
 			g.feat("var-in-operand")
-			return &Node{K: "var", S: rapid.SampledFrom(okVars).Draw(g.t, "rvar").Name}
+			return &Node{K: "var", S: pickOf(g.t, okVars, "rvar").Name}
 		}
 		opts = append(opts, f, f)
 	}
@@ -554,12 +586,12 @@ func (g *gen) genRanged(lo, hi int64, depth int) *Node {
 				k := g.i64(1, min64(hi/m, 1000), "rk")
 				l := &Link{Count: g.genOperand(mLo, m, depth), DL: g.dLetter(), Sides: g.genOperand(1, k, depth)}
 				if lo <= 1 && g.chance(25, "rkeep") {
-					l.Keep = rapid.SampledFrom([]string{"k", "kh", "q", "kl", "K", "Q"}).Draw(g.t, "keep")
+					l.Keep = pickOf(g.t, []string{"k", "kh", "q", "kl", "K", "Q"}, "keep")
 					if g.chance(60, "keepn") {
 						l.KeepN = g.genOperand(1, m+1, depth)
 					}
 				} else if lo == 0 && g.chance(20, "rdrop") {
-					l.Keep = rapid.SampledFrom([]string{"dh", "dl"}).Draw(g.t, "drop")
+					l.Keep = pickOf(g.t, []string{"dh", "dl"}, "drop")
 					if g.chance(60, "keepn") {
 						l.KeepN = g.genOperand(1, m+1, depth)
 					}
@@ -574,7 +606,7 @@ func (g *gen) genRanged(lo, hi int64, depth int) *Node {
 				la := g.i64(0, lo, "sla")
 				a := g.genRanged(la, la+w, depth-1)
 				b := g.genRanged(lo-la, hi-la-w, depth-1)
-				return g.bin(rapid.SampledFrom([]string{"+", "+", "＋"}).Draw(g.t, "op"), a, b)
+				return g.bin(pickOf(g.t, []string{"+", "+", "＋"}, "op"), a, b)
 			})
 			c := int64(2)
 			if (lo+c-1)/c <= hi/c && hi/c >= 1 {
@@ -646,13 +678,13 @@ func (g *gen) xdyNode(links ...*Link) *Node {
 func (g *gen) fateNode() *Node {
 	g.nDice++
 	g.feat("fam-fate")
-	return &Node{K: "dice", D: &Dice{Fam: "fate", Letter: rapid.SampledFrom([]string{"f", "f", "F"}).Draw(g.t, "f")}}
+	return &Node{K: "dice", D: &Dice{Fam: "fate", Letter: pickOf(g.t, []string{"f", "f", "F"}, "f")}}
 }
 
 func (g *gen) cocNode(depth int) *Node {
 	g.nDice++
 	g.feat("fam-coc")
-	d := &Dice{Fam: "coc", Letter: rapid.SampledFrom([]string{"b", "p", "b", "p", "B", "P"}).Draw(g.t, "bp")}
+	d := &Dice{Fam: "coc", Letter: pickOf(g.t, []string{"b", "p", "b", "p", "B", "P"}, "bp")}
 	if g.chance(70, "cocn") {
 		d.Pool = g.genOperand(0, 4, depth)
 	}
@@ -678,7 +710,7 @@ func (g *gen) genDice(depth int) *Node {
 
 func (g *gen) keepMods(l *Link, count int64, depth int) {
 	if g.chance(35, "keep?") {
-		l.Keep = rapid.SampledFrom([]string{"k", "kh", "q", "kl", "dh", "dl", "K", "Q"}).Draw(g.t, "keep")
+		l.Keep = pickOf(g.t, []string{"k", "kh", "q", "kl", "dh", "dl", "K", "Q"}, "keep")
 		g.feat("mod-keep-" + strings.ToLower(l.Keep))
 		if g.chance(65, "keepn") {
 			l.KeepN = g.genOperand(1, count+1, depth)
@@ -688,7 +720,7 @@ func (g *gen) keepMods(l *Link, count int64, depth int) {
 
 func (g *gen) mmMod(l *Link, sides int64, depth int) {
 	if g.chance(15, "mm?") {
-		l.MM = rapid.SampledFrom([]string{"min", "max"}).Draw(g.t, "mm")
+		l.MM = pickOf(g.t, []string{"min", "max"}, "mm")
 		g.feat("mod-" + l.MM)
 		l.MMN = g.genOperand(1, max64(1, min64(sides, 1000000)), depth)
 	}
@@ -739,23 +771,29 @@ func (g *gen) genXdY(depth int) *Node {
 			for i := 0; i < nl; i++ {
 				l2 := &Link{DL: g.dLetter(), Sides: g.genOperand(1, 6, depth)}
 				if g.chance(20, "ckeep") {
-					l2.Keep = rapid.SampledFrom([]string{"k", "kh", "q", "kl", "dh", "dl"}).Draw(g.t, "keep")
+					l2.Keep = pickOf(g.t, []string{"k", "kh", "q", "kl", "dh", "dl"}, "keep")
 					if g.chance(60, "keepn") {
 						l2.KeepN = g.genOperand(1, 3, depth)
 					}
 				}
 				if g.chance(10, "cmm") {
-					l2.MM = rapid.SampledFrom([]string{"min", "max"}).Draw(g.t, "mm")
+					l2.MM = pickOf(g.t, []string{"min", "max"}, "mm")
 					l2.MMN = g.genOperand(1, 6, depth)
 				}
 				n.D.Links = append(n.D.Links, l2)
+			}
+			// a link whose total can be 0 (everything dropped) would give the next link 0 dice, which is an error
+			for _, lk := range n.D.Links[:len(n.D.Links)-1] {
+				if lk.Keep == "dh" || lk.Keep == "dl" {
+					lk.Keep = "kh"
+				}
 			}
 		}
 		return n
 	case form < 74: // dY
 		l := &Link{DL: g.dLetter(), Sides: g.genOperand(1, smax, depth)}
 		if g.chance(20, "pear") {
-			l.Pear = rapid.SampledFrom([]string{"优势", "劣势", "優勢", "劣勢"}).Draw(g.t, "pear")
+			l.Pear = pickOf(g.t, []string{"优势", "劣势", "優勢", "劣勢"}, "pear")
 			g.feat("mod-pear")
 		} else {
 			g.keepMods(l, 1, depth)
@@ -772,7 +810,7 @@ func (g *gen) genXdY(depth int) *Node {
 	default: // d, d优势
 		l := &Link{DL: g.dLetter()}
 		if g.chance(35, "pear") {
-			l.Pear = rapid.SampledFrom([]string{"优势", "劣势", "優勢", "劣勢"}).Draw(g.t, "pear")
+			l.Pear = pickOf(g.t, []string{"优势", "劣势", "優勢", "劣勢"}, "pear")
 			g.feat("mod-pear")
 		}
 		g.feat("form-default-sides")
@@ -783,7 +821,7 @@ func (g *gen) genXdY(depth int) *Node {
 func (g *gen) genWod(depth int) *Node {
 	g.nDice++
 	g.feat("fam-wod")
-	d := &Dice{Fam: "wod", Letter: rapid.SampledFrom([]string{"a", "a", "a", "A"}).Draw(g.t, "a")}
+	d := &Dice{Fam: "wod", Letter: pickOf(g.t, []string{"a", "a", "a", "A"}, "a")}
 	pmax := int64(8)
 	if g.chance(12, "bigpool") {
 		pmax = 22 // >= 15 dice: abbreviated annotation
@@ -805,10 +843,10 @@ func (g *gen) genWod(depth int) *Node {
 	}
 	var mods []*WMod
 	if hasM {
-		mods = append(mods, &WMod{L: rapid.SampledFrom([]string{"m", "M"}).Draw(g.t, "m"), N: g.genOperandFixed(points, depth)})
+		mods = append(mods, &WMod{L: pickOf(g.t, []string{"m", "M"}, "m"), N: g.genOperandFixed(points, depth)})
 	}
 	if g.chance(45, "wk") {
-		l := rapid.SampledFrom([]string{"k", "k", "q", "K", "Q"}).Draw(g.t, "kq")
+		l := pickOf(g.t, []string{"k", "k", "q", "K", "Q"}, "kq")
 		mods = append(mods, &WMod{L: l, N: g.genOperand(1, 12, depth)})
 	}
 	if len(mods) == 2 && g.chance(50, "swap") {
@@ -823,7 +861,7 @@ func (g *gen) genOperandFixed(v int64, depth int) *Operand { return g.genOperand
 func (g *gen) genDC(depth int) *Node {
 	g.nDice++
 	g.feat("fam-dc")
-	d := &Dice{Fam: "dc", Letter: rapid.SampledFrom([]string{"c", "c", "C"}).Draw(g.t, "c")}
+	d := &Dice{Fam: "dc", Letter: pickOf(g.t, []string{"c", "c", "C"}, "c")}
 	pmax := int64(8)
 	if g.chance(12, "bigpool") {
 		pmax = 22
@@ -833,11 +871,14 @@ func (g *gen) genDC(depth int) *Node {
 	hasM := g.chance(35, "dm")
 	if hasM {
 		points = g.i64(1, 12, "dpoints")
+		if points > 10 && g.avoid != nil && g.avoid("dc_faces_gt10") {
+			points = 10
+		}
 	}
 	lo := max64(2, points/2)
 	d.Line = g.genOperand(lo, lo+6, depth)
 	if hasM {
-		d.Mods = append(d.Mods, &WMod{L: rapid.SampledFrom([]string{"m", "M"}).Draw(g.t, "m"), N: g.genOperandFixed(points, depth)})
+		d.Mods = append(d.Mods, &WMod{L: pickOf(g.t, []string{"m", "M"}, "m"), N: g.genOperandFixed(points, depth)})
 	}
 	return &Node{K: "dice", D: d}
 }
@@ -863,7 +904,7 @@ func (g *gen) genProgram(maxStmts, depth int) *Program {
 		g.feat("multi-statement")
 	}
 	if !g.noWS && g.chance(12, "lead") {
-		pr.Lead = rapid.SampledFrom([]string{" ", "  ", "\n", "\t", " \n"}).Draw(g.t, "leadws")
+		pr.Lead = pickOf(g.t, []string{" ", "  ", "\n", "\t", " \n"}, "leadws")
 		g.feat("leading-ws")
 	}
 	for i := 0; i < n; i++ {
@@ -875,10 +916,10 @@ func (g *gen) genProgram(maxStmts, depth int) *Program {
 			cur := printNode(st)
 			// a newline separates statements only when the previous one does not end with a ')' (which
 			// swallows the newline) and the next one does not begin with a sign (which continues the expression)
-			nlOK := nodeTailClass(pr.Stmts[i-1]) != "close" && !startsWithSign(cur) && prev != ""
+			nlOK := nodeTailClass(pr.Stmts[i-1]) != "close" && !startsWithSign(cur) && prev != "" && !g.mayStartNegative(st)
 			var sep string
 			if nlOK && !g.noWS && g.chance(45, "nlsep") {
-				sep = rapid.SampledFrom([]string{"\n", "\n", " \n", "\n  ", "\t\n\n"}).Draw(g.t, "nl")
+				sep = pickOf(g.t, []string{"\n", "\n", " \n", "\n  ", "\t\n\n"}, "nl")
 				if nodeTailClass(pr.Stmts[i-1]) == "ident" || true {
 					// blanks before the newline are fine after any token (spNoCR)
 				}
@@ -890,10 +931,36 @@ func (g *gen) genProgram(maxStmts, depth int) *Program {
 		}
 	}
 	if !g.noWS && g.chance(12, "trail") {
-		pr.Trail = rapid.SampledFrom([]string{" ", "\n", " \n ", "\t", ";", " ; "}).Draw(g.t, "trailws")
+		pr.Trail = pickOf(g.t, []string{" ", "\n", " \n ", "\t", ";", " ; "}, "trailws")
 		g.feat("trailing-ws")
 	}
 	return pr
+}
+
+// mayStartNegative: the leftmost term of the statement can show a negative value.  After a line break such a
+// value would read as a subtraction from the previous line (in the text as in the language itself), so such a
+// statement is only ever introduced by ';'.
+func (g *gen) mayStartNegative(n *Node) bool {
+	for n != nil {
+		switch n.K {
+		case "bin":
+			n = n.L
+			continue
+		case "var":
+			for _, v := range g.vars {
+				if v.Name == n.S {
+					return v.Val < 0
+				}
+			}
+			return true
+		case "cvar":
+			return true
+		case "dice":
+			return n.D.Fam == "fate"
+		}
+		return false
+	}
+	return false
 }
 
 func newGen(t *rapid.T, vars []VarDef) *gen {
